@@ -136,6 +136,11 @@ def run(F, rep, tier="quick", extra=None, only=None):
                     continue
                 s_, d_ = base_ty(ta[0]), base_ty(ta[1])
                 n_cast += 1
+                # CAST-OWN: transmute_copy reads a bitwise copy out of its argument; a by-value cast must wrap the argument in ManuallyDrop,
+                # otherwise the original is still dropped when the function returns and every component has two owners
+                if "transmute_copy" in a.name and "ManuallyDrop<" not in ta[0] and not _calls(F, b, "mem::forget"):
+                    problems.append("transmute_copy out of `%s`, which is not wrapped in ManuallyDrop: the source is dropped as well (double drop "
+                                    "for components with drop glue); the cast must move, not copy" % ta[0])
                 # whole-array reinterpretation with different element counts: the counts must be tied together on the path
                 cs, cd = array_count(ta[0]), array_count(ta[1])
                 if cs is not None and cd is not None and cs != cd:
@@ -182,6 +187,11 @@ def run(F, rep, tier="quick", extra=None, only=None):
     check_std_casts(F, rep)
     check_layout(F, rep, tier)
     return {"level": "other"}
+
+
+def _calls(F, b, tail):
+    """does the body call a function whose path ends with `tail` (the forget-after-copy idiom is the other way to move out)"""
+    return any(isinstance(n.get("c"), dict) and "d" in n["c"] and F.S[n["c"]["d"]].endswith(tail) for n, _p in facts.walk(b["body"]))
 
 
 def check_unsafe_impls(F, rep):
